@@ -1727,6 +1727,42 @@ pub async fn serve_sync(
     recv_res
 }
 
+/// Verification hooks (feature `verif-hooks`): thin wrappers around private functions so an
+/// external harness can drive the sync server side in-process.  Additive only.
+#[cfg(feature = "verif-hooks")]
+pub mod verif_hooks {
+    use super::*;
+
+    pub fn handle_need(
+        conn: &mut Connection,
+        actor_id: ActorId,
+        need: SyncNeedV1,
+        sender: &Sender<SyncMessage>,
+    ) -> eyre::Result<()> {
+        super::handle_need(conn, actor_id, need, sender)
+    }
+
+    pub async fn process_sync(
+        pool: SplitPool,
+        bookie: Bookie,
+        sender: Sender<SyncMessage>,
+        recv: mpsc::Receiver<SyncRequestV1>,
+    ) -> eyre::Result<()> {
+        super::process_sync(pool, bookie, sender, recv).await
+    }
+
+    pub fn chunk_range_versions(
+        range: RangeInclusive<CrsqlDbVersion>,
+        chunk_size: usize,
+    ) -> Vec<RangeInclusive<CrsqlDbVersion>> {
+        super::chunk_range(range, chunk_size).collect()
+    }
+
+    pub fn chunk_range_u64(range: RangeInclusive<u64>, chunk_size: usize) -> Vec<RangeInclusive<u64>> {
+        super::chunk_range(range, chunk_size).collect()
+    }
+}
+
 #[cfg(test)]
 mod tests {
     use crate::api::public::api_v1_transactions;
